@@ -73,6 +73,82 @@ def _terminates(stmts) -> bool:
     return False
 
 
+def normalise_local_shapes(f: ast.FunctionDef) -> Tuple[ast.FunctionDef, List[str]]:
+    """A view of `f` with two local spellings read as what they abbreviate:
+    * `for T in iter(G, S): BODY` (no else clause)  ->  `while True: T = G(); if T == S: break; BODY`;
+    * a nested `def g(p..): return EXPR` that is only ever called (and never re-bound) -> its calls replaced by EXPR with the arguments substituted
+      (a closure reads the enclosing variables when it is called, which is exactly where the expression now stands).
+    -> (view, what was done).  The original tree is never modified."""
+    if not any(isinstance(x, ast.FunctionDef) and x is not f for x in ast.walk(f)) and not any(
+            isinstance(x, ast.For) and isinstance(x.iter, ast.Call) and isinstance(x.iter.func, ast.Name) and x.iter.func.id == "iter" and len(x.iter.args) == 2 for x in ast.walk(f)):
+        return f, []
+    done: List[str] = []
+    view = ast.parse(ast.unparse(f)).body[0]
+
+    class Loops(ast.NodeTransformer):
+        def visit_FunctionDef(self, node):
+            if node is view:
+                return self.generic_visit(node)
+            return node
+
+        def visit_For(self, node):
+            self.generic_visit(node)
+            it = node.iter
+            if (isinstance(it, ast.Call) and isinstance(it.func, ast.Name) and it.func.id == "iter" and len(it.args) == 2 and not it.keywords and not node.orelse
+                    and isinstance(it.args[0], (ast.Name, ast.Attribute)) and all(isinstance(x, (ast.Name, ast.Attribute, ast.Constant, ast.Load, ast.UnaryOp, ast.USub)) for x in ast.walk(it.args[1]))):
+                done.append("sentinel-iterator loop read as a while loop")
+                step = ast.Assign(targets=[node.target], value=ast.Call(func=it.args[0], args=[], keywords=[]), lineno=0)
+                stop = ast.If(test=ast.Compare(left=fresh(ast.Expression(body=node.target).body) if False else ast.parse(ast.unparse(node.target), mode="eval").body, ops=[ast.Eq()], comparators=[it.args[1]]),
+                              body=[ast.Break()], orelse=[])
+                return ast.While(test=ast.Constant(value=True), body=[step, stop] + node.body, orelse=[])
+            return node
+    view = Loops().visit(view)
+    view = ast.parse(ast.unparse(view)).body[0]
+
+    # nested single-expression functions
+    nested = [st for st in ast.walk(view) if isinstance(st, ast.FunctionDef) and st is not view]
+    for g in nested:
+        body = [st for st in g.body if not (isinstance(st, ast.Expr) and isinstance(st.value, ast.Constant))]
+        a = g.args
+        if g.decorator_list or len(body) != 1 or not isinstance(body[0], ast.Return) or body[0].value is None or a.vararg or a.kwarg or a.kwonlyargs or a.defaults or a.posonlyargs:
+            continue
+        params = [p.arg for p in a.args]
+        uses = [x for x in ast.walk(view) if isinstance(x, ast.Name) and x.id == g.name]
+        calls = [c for c in ast.walk(view) if isinstance(c, ast.Call) and isinstance(c.func, ast.Name) and c.func.id == g.name]
+        if len(uses) != len(calls) or any(isinstance(x.ctx, ast.Store) for x in uses) or any(c.keywords or len(c.args) != len(params) for c in calls):
+            continue
+        if any(isinstance(x, ast.Name) and x.id == g.name for x in ast.walk(body[0].value)):
+            continue        # recursive
+        if any(not all(isinstance(x, (ast.Name, ast.Attribute, ast.Constant, ast.Load)) for x in ast.walk(arg)) for c in calls for arg in c.args):
+            continue
+        expr = body[0].value
+
+        class Calls(ast.NodeTransformer):
+            def visit_Call(self, node):
+                self.generic_visit(node)
+                if isinstance(node.func, ast.Name) and node.func.id == g.name:
+                    m = dict(zip(params, node.args))
+
+                    class P(ast.NodeTransformer):
+                        def visit_Name(self, nn):
+                            return fresh(m[nn.id]) if nn.id in m and isinstance(nn.ctx, ast.Load) else nn
+                    return P().visit(fresh(expr))
+                return node
+
+        class Drop(ast.NodeTransformer):
+            def visit_FunctionDef(self, node):
+                if node.name == g.name and node is not view:
+                    return None
+                return self.generic_visit(node)
+        view = Drop().visit(Calls().visit(view))
+        view = ast.parse(ast.unparse(view)).body[0]
+        done.append(f"local function {g.name}() read as the expression it returns")
+    if not done:
+        return f, []
+    link_parents(view, getattr(f, "_parent", None))
+    return view, done
+
+
 def inline_module_helpers(mod, f: ast.FunctionDef, wanted, depth: int = 3) -> Tuple[ast.FunctionDef, List[str], List[str]]:
     """A view of `f` in which calls of private module-level helpers selected by `wanted(helper def)` are replaced by the helper's body with the
     arguments substituted (a `*args` parameter by the extra arguments of the call), at each call site on its own.  Handled positions of the call:
@@ -562,7 +638,7 @@ def _plain(v):
 
 def _has_internal(vals, depth: int = 2) -> bool:
     for v in vals:
-        if isinstance(v, (Inst, Stub, Opaque, OpaqueInst, NativeModel, PyFn, Raised, GenValue)) and not isinstance(v, DictInst):
+        if isinstance(v, (Inst, Stub, Opaque, OpaqueInst, NativeModel, PyFn, Raised)) and not isinstance(v, DictInst):
             return True
         if type(v).__name__ in ("_Closure", "_Bound", "_ClassRef", "_StubMethod", "_SuppressCM", "_GenCM", "_NullCM"):
             return True
